@@ -65,3 +65,26 @@ Definition check_fixstdin (a : fixstdin_args) (exp : option (N * N)) : bool :=
 Definition model_stdinflag (a : list bool) : option bool := stdin_flag a.
 Definition case_t_stdinflag : Type := (N * list bool * option bool)%type.
 Definition check_stdinflag (a : list bool) (exp : option bool) : bool := opt_eqb Bool.eqb (model_stdinflag a) exp.
+
+(** group fed: the violations collected for a file by [parse_string] and [lint_fix_parsed] (in the order in which
+    [lint_parsed] concatenates them), each with [IgnoreMask::is_masked] of the file's mask
+    |-> (the violations of the file handed to a recording implementation of [Formatter],
+         the violations of the [LintedFile] returned by [lint_string] / [lint_paths]) *)
+Definition viol_eqb (a b : viol) : bool :=
+  (v_line a =? v_line b) && (v_col a =? v_col b) && opt_eqb str_eqb (v_rule a) (v_rule b) &&
+  Bool.eqb (v_warning a) (v_warning b) && Bool.eqb (v_ignore a) (v_ignore b) && Bool.eqb (v_fixable a) (v_fixable b).
+Definition model_fed (raw : list cviol) : list viol * list viol := lint_parsed_end raw.
+Definition case_t_fed : Type := (N * list cviol * (list viol * list viol))%type.
+Definition check_fed (raw : list cviol) (exp : list viol * list viol) : bool :=
+  pair_eqb (list_eqb viol_eqb) (list_eqb viol_eqb) (model_fed raw) exp.
+
+(** group fixrep: format, the library's violations (fix mode) per linted file |-> what `sqruff fix` printed per file *)
+Definition fixrep_args : Type := (format * list (list viol))%type.
+Definition model_fixrep (a : fixrep_args) : option (list (list rline)) :=
+  match dispatch_all false (fst a) (snd a) with
+  | Some (reps, _) => Some (map canon reps)
+  | None => None
+  end.
+Definition case_t_fixrep : Type := (N * fixrep_args * option (list (list rline)))%type.
+Definition check_fixrep (a : fixrep_args) (exp : option (list (list rline))) : bool :=
+  opt_eqb (list_eqb (list_eqb rline_eqb)) (model_fixrep a) exp.
